@@ -132,9 +132,11 @@ var curateStructs = []structSpec{{File: "cluster/actions.go", Name: "FailedPoint
 var idCounterFields = []structSpec{{File: "shard/idcounter.go", Name: "IdCounter", Only: []string{"freeIds", "nextFreeId"}}}
 
 
+// a function outside the subset: reported, its whole module is not written, exit status 2
+type failure struct{ msg string }
+
 func fail(pos token.Position, format string, a ...any) {
-	fmt.Fprintf(os.Stderr, "go2lean: %s: unsupported: %s\n", pos, fmt.Sprintf(format, a...))
-	os.Exit(2)
+	panic(failure{fmt.Sprintf("go2lean: %s: unsupported: %s", pos, fmt.Sprintf(format, a...))})
 }
 
 type tr struct {
@@ -1332,6 +1334,7 @@ func main() {
 	files := map[string]*ast.File{}
 	mods := map[string][]genFunc{}
 	extMods := map[string]bool{}
+	failedMods := map[string]bool{}
 	knownFuncs := map[string]map[string]*xty{}
 	var order []string
 	for _, sp := range specs {
@@ -1349,15 +1352,28 @@ func main() {
 			order = append(order, sp.Module)
 		}
 		var gs []genFunc
-		if sp.Ext {
-			extMods[sp.Module] = true
-			if knownFuncs[sp.Module] == nil {
-				knownFuncs[sp.Module] = map[string]*xty{}
+		func() {
+			defer func() {
+				if r := recover(); r != nil {
+					f, ok := r.(failure)
+					if !ok {
+						panic(r)
+					}
+					fmt.Fprintln(os.Stderr, f.msg)
+					failedMods[sp.Module] = true
+					gs = nil
+				}
+			}()
+			if sp.Ext {
+				extMods[sp.Module] = true
+				if knownFuncs[sp.Module] == nil {
+					knownFuncs[sp.Module] = map[string]*xty{}
+				}
+				gs = translateExt(fset, makeLoader(fset, *repo, files), sp, knownFuncs[sp.Module])
+			} else {
+				gs = translate(fset, f, sp)
 			}
-			gs = translateExt(fset, makeLoader(fset, *repo, files), sp, knownFuncs[sp.Module])
-		} else {
-			gs = translate(fset, f, sp)
-		}
+		}()
 		for _, g := range gs {
 			dup := false
 			for _, h := range mods[sp.Module] {
@@ -1380,6 +1396,10 @@ func main() {
 		panic(err)
 	}
 	for _, m := range order {
+		if failedMods[m] {
+			fmt.Fprintf(os.Stderr, "go2lean: module %s is not written\n", m)
+			continue
+		}
 		var b strings.Builder
 		b.WriteString("-- GENERATED by tools/go2lean from the working tree of the repository. DO NOT EDIT.\n")
 		b.WriteString("import SemaModel.Base.GoRt\n")
@@ -1401,5 +1421,8 @@ func main() {
 		if err := os.WriteFile(filepath.Join(*out, m+".lean"), []byte(b.String()), 0o644); err != nil {
 			panic(err)
 		}
+	}
+	if len(failedMods) != 0 {
+		os.Exit(2)
 	}
 }
